@@ -463,8 +463,24 @@ class Gen:
             self.h.send("q %s %d %d %s" % (src, self.dnsid(), 2, vlib.hx(self.rng.choice([sub, b"abc." + sub]))), {"kind": "ns"})
         elif r < 0.4:
             self.h.send("q %s %d %d %s" % (src, self.dnsid(), 1, vlib.hx(self.rng.choice([b"ns.", b"www.", b"NS.", b"wWw."]) + sub)), {"kind": "a"})
-        elif r < 0.6:
+        elif r < 0.5:
             self.h.send("q %s %d %d %s" % (src, self.dnsid(), self.rng.choice([1, 16, 28]), vlib.hx(self.rng.choice([b"www.other.org", b"x." + sub + b".evil.net", b"com"]))), {"kind": "outside"})
+        elif r < 0.6:
+            # a hand-made query whose name is as long as a name can be, or a little longer: labels of legal size, 250..258 characters in all
+            # (253 is the longest legal name: 255 bytes on the wire), under the tunnel domain (any command letter) or outside it
+            tail = self.rng.choice([sub, sub, b"other.org"])
+            total = self.rng.choice([250, 252, 253, 254, 255, 256, 258])
+            first = self.rng.choice([b"z", b"v", b"p", b"0", b"y", b"n", b"ns", b"www", b"q"])
+            rest = total - len(tail) - 1
+            labs, k = [], 0
+            while rest > 0:
+                n = min(63, rest) if labs else min(63, rest)
+                lab = (first + b"a" * 63)[:n] if not labs else bytes(self.rng.choice(b"abcdefghij0123456789") for _ in range(n))
+                labs.append(lab)
+                rest -= n + 1
+            wire = b"".join(bytes([len(l)]) + l for l in labs + tail.split(b".")) + b"\0"
+            msg = struct.pack(">HHHHHH", self.dnsid(zero_ok=False), 0x0100, 1, 0, 0, 0) + wire + struct.pack(">HH", self.rng.choice([10, 16, 5, 1, 2, 15, 33]), 1)
+            self.h.send("dns %s %s" % (src, vlib.hx(msg)), {"kind": "longname"})
         elif r < 0.8 and self.bind:
             self.h.send("bind " + vlib.hx(struct.pack(">H", self.rng.choice([self.nextid, self.dnsid(), 0])) + b"\x81\x80" + bytes(self.rng.randrange(256) for _ in range(self.rng.randrange(0, 30)))), {"kind": "bind"})
         else:
